@@ -285,6 +285,54 @@ func TestVX_C01(t *testing.T) {
 			r.Sample(cs)
 		}
 	}
+	// ---------------- a nonce whose x1 = x([k]G) lies within 2^224 of the top of the range (a witness found once by a 2^32
+	// search; checked against the reference here) with digests around 2n - x1 and the largest digests: only then does
+	// e + x1 reach 2n, and r = (e + x1) mod n needs more than one subtraction. The library's own signature must verify.
+	{
+		n++
+		if vx.MineIdx(n) {
+			kW := vx.UnHex("243f6a8885a308d313198a2e03707344a4093822299f31d0082ffa9906293036")
+			x1 := sm2ref.BaseMul(bi(kW)).X
+			twoN := new(big.Int).Lsh(bigN, 1)
+			lim := new(big.Int).Lsh(bigOne, 256)
+			if new(big.Int).Add(x1, new(big.Int).Sub(lim, bigOne)).Cmp(twoN) < 0 {
+				panic("harness: the witness nonce does not have a top-range x1")
+			}
+			base := new(big.Int).Sub(twoN, x1)
+			for ki, kv := range keys {
+				if ki >= 3 {
+					break
+				}
+				px, py := sm2ref.Pub(kv.d)
+				for off := int64(-2); off <= 2; off++ {
+					for _, ev := range []*big.Int{new(big.Int).Add(base, big.NewInt(off)), new(big.Int).Sub(lim, big.NewInt(1+off*off))} {
+						if ev.Sign() < 0 || ev.Cmp(lim) >= 0 {
+							continue
+						}
+						r.Eval(1)
+						e := b32(ev)
+						cs := c01case{Entry: "hashed", Shape: "top-x1:" + kv.name, D: vx.Hex(b32(kv.d)), E: vx.Hex(e), K: vx.Hex(kW)}
+						var rr, ss []byte
+						var err error
+						var ok bool
+						var verr error
+						kind, msg := vx.Try(func() {
+							rr, ss, err = sm2.SignHashed(stream(kW, b32(big.NewInt(0x3333))), b32(kv.d), e)
+							if err == nil {
+								ok, verr = sm2.VerifyHashed(px, py, e, rr, ss)
+							}
+						})
+						if kind != "" || err != nil {
+							r.Violation("c01:top-x1:fail", fmt.Sprintf("%s %v", msg, err), cs)
+						} else if !ok {
+							r.Violation("c01:top-x1:verify-reject", fmt.Sprintf("nonce with x1 near 2^256 and digest %x (e + x1 >= 2n - 2): the library's own signature (r=%x s=%x) is rejected: %v", e, rr, ss, verr), cs)
+						}
+						r.Shape(fmt.Sprintf("top-x1:%s:%d:%x", kv.name, off, ev.Bit(255)))
+					}
+				}
+			}
+		}
+	}
 	// ---------------- related keys in alternation (d and n-d: public keys with equal x and opposite y), and za handed over
 	// as the head of a record that continues with the key material: every signature verifies under its own key
 	{
